@@ -198,6 +198,9 @@ func (rd *Round) Case33() gen.Case {
 			EncEvents(rd.Force.Events), fcerr, EncShards(rd.ModelShards(rd.After)),
 			EncStrs(rd.SnapPreview.Others()), EncStrs(rd.SnapAfter.Others()))
 		c.Class = rd.Kind + ":" + kinds(rd.Preview.Events) + ":" + pverr
+		if rd.Kind == "sync" && rd.metaOnlyRepos() > 0 {
+			c.Class += "+meta" // some repository is indexed at its current HEAD and options, only its metadata changed
+		}
 		if len(rd.Bystand) > 0 {
 			c.Class += "+bystanders" // non-shard files (temp leftovers, lock, notes, sub-directory) lie in the index directory
 		}
@@ -233,4 +236,19 @@ func (rd *Round) Case33() gen.Case {
 	c.Go, c.Key = goFail, key
 	c.Nontrivial = strings.Contains(c.Class, "WR") || strings.Contains(c.Class, "WI")
 	return c
+}
+
+// metaOnlyRepos counts the discovered repositories whose first shard is current in everything but mutable metadata.
+func (rd *Round) metaOnlyRepos() int {
+	shards := map[string]ModelShard{}
+	for _, s := range rd.ModelShards(rd.Before) {
+		shards[s.Path] = s
+	}
+	n := 0
+	for _, m := range rd.ModelRepos() {
+		if s, ok := shards[m.Shard0]; ok && m.Head != "" && s.Name == m.Name && s.OptOk && s.Ver == m.Head && !s.MetaOk {
+			n++
+		}
+	}
+	return n
 }
